@@ -130,6 +130,34 @@ theorem callback_after_tasks (hr : Reachable r w m s) {j : Nat} (hc : s.complete
   · exact Or.inl a
   · exact Or.inr a.1
 
+/-- The scheduler never runs or waits for a completion callback: publishing a job's result
+(`pqFinish`) takes it straight back to its queue loop, whatever the callback does (block, wait
+for a later job, call `NewJob` or `Stop` — in the relation such a callback is an ordinary
+client, there is no step of the scheduler for it). So with a job queued the scheduler's next
+step is enabled right after the publication. This is the fact the tie pins on the real code
+(callbacks that block until `Stop` has returned and callbacks that submit follow-up jobs,
+also onto a full queue; oracle keys `callback-blocks-scheduler` / `hang`). -/
+theorem callback_does_not_block_scheduler {s : State} (hen : isEnabled s .pqFinish = true) :
+    (apply s .pqFinish).pq = .idle ∧
+    (∀ j, s.pq = .waitSg j → (apply s .pqFinish).completed j = true) ∧
+    ((apply s .pqFinish).queue ≠ [] → isEnabled (apply s .pqFinish) .pqTake = true) := by
+  simp only [isEnabled] at hen
+  cases hpq : s.pq with
+  | waitSg j =>
+    refine ⟨by simp [apply, hpq], ?_, ?_⟩
+    · intro j' hj'; cases hj'; simp [apply, hpq, upd]
+    · intro hq
+      have : (apply s .pqFinish).queue = s.queue := by simp [apply, hpq]
+      have hpq' : (apply s .pqFinish).pq = .idle := by simp [apply, hpq]
+      simp only [isEnabled, hpq', this, Bool.and_eq_true, beq_self_eq_true, true_and]
+      rw [this] at hq
+      cases hs : s.queue with
+      | nil => exact absurd hs hq
+      | cons a l => rfl
+  | idle => rw [hpq] at hen; simp at hen
+  | feeding j => rw [hpq] at hen; simp at hen
+  | exited => rw [hpq] at hen; simp at hen
+
 /-- Jobs are processed one at a time: every task that a worker holds or runs belongs to the
 job the scheduler is currently processing, and whenever the scheduler is between jobs (in
 particular when it takes the next job from the queue) no task is in flight — every started
